@@ -164,6 +164,27 @@ def candidates_fun(prog, calls):
             yield p2, calls
 
 
+def _drop_unused(prog, calls):
+    used = sorted({c.fidx for c in calls if not getattr(c, "deploy", False)})
+    if len(used) == len(prog.exts) or not used:
+        return None, None
+    p2 = copy.deepcopy(prog)
+    p2.exts = [p2.exts[k] for k in used]
+    remap = {k: i for i, k in enumerate(used)}
+    cs2 = copy.deepcopy(calls)
+    for c in cs2:
+        if not getattr(c, "deploy", False):
+            c.fidx = remap[c.fidx]
+    # internal functions: keep those reachable from what is left (indices are renumbered, order kept)
+    keep = sorted(p2.reachable_ints())
+    imap = {k: i for i, k in enumerate(keep)}
+    p2.ints = [p2.ints[k] for k in keep]
+    for e in _all_exprs(p2):
+        if e.k == "call":
+            e.f["id"] = imap[e.id]
+    return p2, cs2
+
+
 def shrink(prog, calls, cfg, what, budget_s=60, log=None):
     """returns (prog, calls, diff) minimised while `compare` still reports a difference of kind `what` under cfg"""
     t0 = time.time()
@@ -193,6 +214,11 @@ def shrink(prog, calls, cfg, what, budget_s=60, log=None):
         d = still(prog, cs)
         if d:
             calls, best = cs, d
+    if len(calls) > first + 1:            # in one step: the failing call alone (probe programs have hundreds of calls)
+        cs = calls[:first] + [calls[-1]]
+        d = still(prog, cs)
+        if d:
+            calls, best = cs, d
     i = first
     while i < len(calls) - 1 and time.time() - t0 < budget_s:
         cs = calls[:i] + calls[i + 1:]
@@ -201,6 +227,12 @@ def shrink(prog, calls, cfg, what, budget_s=60, log=None):
             calls, best = cs, d
         else:
             i += 1
+    # in one step: every uncalled external function and every then unreferenced internal function
+    p2, cs2 = _drop_unused(prog, calls)
+    if p2 is not None:
+        d = still(p2, cs2)
+        if d:
+            prog, calls, best = p2, cs2, d
     # 2. statements, 3. expressions, unused functions (to fixpoint)
     progress = True
     while progress and time.time() - t0 < budget_s:
